@@ -19,6 +19,8 @@ RULE = ('Hypothesis draws operand orders (1..4), mode sizes (1..3, size 1 over-w
         'contracted dense values, with the documented mode ordering written as an explicit axis permutation. Non-trivial: '
         'size-1 mode, complex data, complete contraction, first-first/last-last pairing, (1,1)-mode at the left end, a 0 '
         'block in the last row/column, or a factorization with a factor 1; distinct = distinct canonical JSON.')
+RULE += (' ' + 'Added classes: diag positions as tuple / integer array / counted from the end.')
+
 ASSUMPTIONS = [
     'oracle: numpy.tensordot/reshape on values obtained with vt/dense.py (independent of TT.full)',
     'tensordot: the boundary ranks that the routine requires to be 1 are 1 (documented ValueError otherwise), the other two '
